@@ -547,7 +547,7 @@ class DataProviderLinked(DataProvider):
                 for label, axis in aligned_global_axes.items()
             ],
             dim="model",
-        )
+        ).sortby("global")
         aligned_global_axis = aligned_data.coords["global"].data
         return (
             aligned_global_axis,
@@ -580,7 +580,7 @@ class DataProviderLinked(DataProvider):
                 for axis in aligned_global_axes.values()
             ],
             dim="dataset",
-        )
+        ).sortby("global")
         return [
             aligned_indices.isel({"global": i}).dropna(dim="dataset").data.astype(int)
             for i in range(self._aligned_global_axis.size)
@@ -609,7 +609,7 @@ class DataProviderLinked(DataProvider):
             ],
             dim="dataset",
             fill_value="",
-        )
+        ).sortby("global")
         # for every element along the global axis, concatenate all dataset labels
         # into an ndarray of shape (len(global,)
         # as an alternative to the more elegant xarray built-in which is limited to 32 datasets
